@@ -26,12 +26,20 @@ fn peer_bytes(cell: &Value) -> (Vec<u8>, Option<Vec<u8>>) {
     let first = match cell["first"].as_str().unwrap_or("ready") {
         "ready" => {
             let mut props: Vec<(Vec<u8>, Vec<u8>)> = vec![];
+            let ncase = cell["ncase"].as_str().unwrap_or("canonical");
+            let name = |n: &[u8]| -> Vec<u8> {
+                match ncase {
+                    "lower" => n.to_ascii_lowercase(),
+                    "upper" => n.to_ascii_uppercase(),
+                    _ => n.to_vec(),
+                }
+            };
             let pt = cell["ptype"].as_str().unwrap_or("missing");
             if pt != "missing" {
-                props.push((b"Socket-Type".to_vec(), pt.as_bytes().to_vec()));
+                props.push((name(b"Socket-Type"), pt.as_bytes().to_vec()));
             }
             if let Some(id) = &ident {
-                props.push((b"Identity".to_vec(), id.clone()));
+                props.push((name(b"Identity"), id.clone()));
             }
             rc::enc_frame_raw(4, &rc::cmd_body(b"READY", &props), false)
         }
